@@ -731,6 +731,7 @@ class SplineTerm(Term):
         self._name = 'spline_term'
         self._minimal_name = 's'
 
+        self.edge_knots = edge_knots
         if edge_knots is not None:
             self.edge_knots_ = edge_knots
 
@@ -825,7 +826,11 @@ class SplineTerm(Term):
                 'but X has only {} dimensions'.format(self.by, X.shape[1])
             )
 
-        if not hasattr(self, 'edge_knots_'):
+        if getattr(self, 'edge_knots', None) is not None:
+            # user-specified knots
+            self.edge_knots_ = self.edge_knots
+        else:
+            # knots always follow the data being fitted
             self.edge_knots_ = gen_edge_knots(
                 X[:, self.feature], self.dtype, verbose=verbose
             )
@@ -938,6 +943,7 @@ class FactorTerm(SplineTerm):
             'n_splines',
             'basis',
             'constraints',
+            'edge_knots',
         ]
 
     def _validate_arguments(self):
@@ -1219,6 +1225,7 @@ class TensorTerm(SplineTerm, MetaTermMixin):
             'constraints',
             'penalties',
             'basis',
+            'edge_knots',
         ]
         for param in self._exclude:
             delattr(self, param)
